@@ -4,6 +4,7 @@
 (* of the case's kind.  All lines are judged; the set of rejected line     *)
 (* numbers is printed at the end ("BAD" line) - TLC decides every case.    *)
 EXTENDS TextMatch, ReMatch, Cond, ArenaFile, Json, IOUtils, TLC
+HR == INSTANCE HashRange WITH KeyWithAlg <- TRUE, KeyIsArgs <- TRUE, cache <- 0, last <- 0, ncalls <- 0
 
 VARIABLES l, bad, known
 TraceLog == ndJsonDeserialize(IOEnv.TRACE)
@@ -16,6 +17,7 @@ CaseOK(c) ==
     [] c.kind = "cond" -> c.obs = Verdict(c.ast, c.env)
     [] c.kind = "load" -> c.ret = LoadBytes(c.file, c.n)
     [] c.kind = "corrupt" -> CorruptOK(c.ret)
+    [] c.kind = "range" -> c.claim = HR!Addressed(c.blocks, c.o, c.l)
     [] OTHER -> FALSE
 
 \* disagreements that carry the signature of a recorded known finding (decided from the case, spec side)
